@@ -24,7 +24,9 @@ PROP = dict(
                        "Comdex.C13.shutdown_blocks_create_deposit_whitelist",
                        # first-generation surplus / debt auctions: bids, restart, every close path
                        "Comdex.C13.gen1_close_keeps_books", "Comdex.C13.gen1_close_collector_effect",
-                       "Comdex.C13.gen1_begin_block_keeps_books", "Comdex.C13.gen1_bids_keep_books"],
+                       "Comdex.C13.gen1_begin_block_keeps_books", "Comdex.C13.gen1_bids_keep_books",
+                       # second-generation liquidation penalty: exact since fix d8b6c2e (finding D34); what the unrepaired code did
+                       "Comdex.C13.v2_penalty_exact", "Comdex.C13.v2_penalty_before_fix_counterexample"],
     harness_tests=["TestC13"],
     trusted_base=[KERNEL_TB, HARNESS_TB,
                   "Model/Locker.lean is hand-written from x/locker/keeper/msg_server.go, x/locker/keeper/locker.go, "
@@ -56,7 +58,10 @@ PROP = dict(
          "thresholds and lot sizes, net fees steered to surplusThreshold+lot / debtThreshold-lot and their neighbours, the real "
          "x/auction and liquidationsV2 begin-blockers deciding, real MsgPlaceSurplusBid / MsgPlaceDebtBid bids (boundary amounts), ESM "
          "toggles and time jumps past the bid / auction windows so that every first-generation close path and the restart occur; plus 8 "
-         "directed histories, one per close path (surplus|debt x bid|no bid x shutdown|window over); distinct = distinct trace text, "
+         "directed histories, one per close path (surplus|debt x bid|no bid x shutdown|window over); vault products closing fee "
+         "{0, 0.005, 0.02, 0.3} x stability fee {0, 0.25} x draw-down fee {0, 0.01} and two stable-mint products, with same-block "
+         "create+close and repay-all-interest+close bursts; penalty histories: a real vault is liquidated by either generation and bought "
+         "out through the real Dutch auctions (statistics cell:<inflow>:<component>=0|>0 enumerate the inflow cells reached); distinct = distinct trace text, "
          "non-trivial = at least one accepted call",
 )
 
